@@ -11,11 +11,13 @@ pub enum Kind {
     CData,
     Comment,
     PI,
+    /// text that consists of a reference to an entity declared in the DOCTYPE (`&e;`)
+    Ent,
 }
 
 impl Kind {
     fn textlike(self) -> bool {
-        matches!(self, Kind::Text | Kind::Ws)
+        matches!(self, Kind::Text | Kind::Ws | Kind::Ent)
     }
     fn item(self) -> Item {
         match self {
@@ -24,6 +26,7 @@ impl Kind {
             Kind::CData => Item::CData("c".into()),
             Kind::Comment => Item::Comment("k".into()),
             Kind::PI => Item::PI("p q".into()),
+            Kind::Ent => Item::Text("&e;".into()),
         }
     }
 }
@@ -331,8 +334,13 @@ impl Space {
         unreachable!("unrank: node index beyond count");
     }
 
+    /// the document with index `index`; spaces with entity references get a DOCTYPE that declares the entity
     pub fn doc(&self, index: u64) -> Doc {
-        Doc::from_root(self.get(index))
+        let mut d = Doc::from_root(self.get(index));
+        if self.cfg.kinds.contains(&Kind::Ent) {
+            d.prolog.push(crate::dom::Misc::DocType(format!("{} [<!ENTITY e \"v\">]", self.cfg.root)));
+        }
+        d
     }
 }
 
